@@ -1600,6 +1600,102 @@ static void scn_xjoin_impl(int stacked)
     }
 }
 
+/* ======================================================================= private pool, two scheduler objects (C06)
+ * A stream serves an entry pool (MPMC) and a PRIVATE pool; a second scheduler object over the
+ * same pools exists but is never used.  A ULT of the stream creates a worker in the private pool;
+ * the worker suspends; the stream is joined while the blocked worker is all that is left; then a
+ * ULT pushed into the entry pool (it runs on the joined stream, as a private pool requires)
+ * resumes the worker.  The join must wait for the worker. */
+static ABT_thread g_pj_w;
+static ABT_pool g_pj_e, g_pj_v;
+static volatile int g_pj_want, g_pj_spawned;
+static void pj_worker(void *a)
+{
+    (void)a;
+    EV("\"e\":\"Start\",\"u\":2,\"arg\":20,\"es\":1,\"n\":1");
+    EV("\"e\":\"Suspend\",\"u\":2");
+    g_pj_want = 1;
+    CHK(ABT_self_suspend());
+    EV("\"e\":\"Resumed\",\"u\":2");
+    EV("\"e\":\"Finish\",\"u\":2");
+}
+static void pj_spawner(void *a)
+{
+    (void)a;
+    EV("\"e\":\"Start\",\"u\":1,\"arg\":10,\"es\":1,\"n\":1");
+    EV("\"e\":\"Create\",\"by\":1,\"u\":2,\"kind\":0,\"named\":1,\"arg\":20,\"pool\":1");
+    CHK(ABT_thread_create(g_pj_v, pj_worker, NULL, ABT_THREAD_ATTR_NULL, &g_pj_w));
+    EV("\"e\":\"CreateRet\",\"by\":1,\"u\":2");
+    g_pj_spawned = 1;
+    EV("\"e\":\"Finish\",\"u\":1");
+}
+static void pj_setter(void *a)
+{
+    (void)a;
+    EV("\"e\":\"Start\",\"u\":3,\"arg\":30,\"es\":1,\"n\":1");
+    EV("\"e\":\"ResumeCall\",\"by\":3,\"u\":2");
+    CHK(ABT_thread_resume(g_pj_w));
+    EV("\"e\":\"ResumeRet\",\"by\":3,\"u\":2");
+    EV("\"e\":\"Finish\",\"u\":3");
+}
+static ABT_thread g_pj_s;
+static void *pj_ext(void *p)
+{
+    (void)p;
+    while (!g_xj_go)
+        pause_any(-1);
+    for (int d = 20 + rnd(200); d > 0; d--)
+        abtv_idle_hint();
+    EV("\"e\":\"Create\",\"by\":-1,\"u\":3,\"kind\":0,\"named\":1,\"arg\":30,\"pool\":1");
+    CHK(ABT_thread_create(g_pj_e, pj_setter, NULL, ABT_THREAD_ATTR_NULL, &g_pj_s));
+    EV("\"e\":\"CreateRet\",\"by\":-1,\"u\":3");
+    return NULL;
+}
+static void scn_privjoin(void)
+{
+    static const ABT_sched_predef pre[3] = { ABT_SCHED_BASIC, ABT_SCHED_PRIO, ABT_SCHED_RANDWS };
+    ABT_pool ps[2];
+    ABT_sched s1, s_unused = ABT_SCHED_NULL;
+    ABT_xstream xs;
+    ABT_thread sp;
+    g_xj_go = 0;
+    g_pj_want = g_pj_spawned = 0;
+    EV("\"e\":\"Exec\",\"nu\":3,\"nes\":2,\"cfg\":0,\"ext\":1");
+    CHK(ABT_pool_create_basic(ABT_POOL_FIFO, ABT_POOL_ACCESS_MPMC, ABT_FALSE, &g_pj_e));
+    CHK(ABT_pool_create_basic(rnd(2) ? ABT_POOL_FIFO : ABT_POOL_RANDWS, ABT_POOL_ACCESS_PRIV, ABT_FALSE, &g_pj_v));
+    ps[0] = g_pj_e;
+    ps[1] = g_pj_v;
+    CHK(ABT_sched_create_basic(pre[rnd(3)], 2, ps, ABT_SCHED_CONFIG_NULL, &s1));
+    if (rnd(3))
+        CHK(ABT_sched_create_basic(pre[rnd(3)], 2, ps, ABT_SCHED_CONFIG_NULL, &s_unused));
+    CHK(ABT_xstream_create(s1, &xs));
+    EV("\"e\":\"Create\",\"by\":0,\"u\":1,\"kind\":0,\"named\":1,\"arg\":10,\"pool\":1");
+    CHK(ABT_thread_create(g_pj_e, pj_spawner, NULL, ABT_THREAD_ATTR_NULL, &sp));
+    EV("\"e\":\"CreateRet\",\"by\":0,\"u\":1");
+    while (!(g_pj_spawned && g_pj_want && state_of(g_pj_w) == 2 && state_of(sp) == 3))
+        pause_any(0);
+    pthread_t ext;
+    pthread_create(&ext, NULL, pj_ext, NULL);
+    EV("\"e\":\"XJoinCall\",\"s\":1");
+    g_xj_go = 1;
+    CHK(ABT_xstream_join(xs));
+    ABT_xstream_state xst;
+    CHK(ABT_xstream_get_state(xs, &xst));
+    EV("\"e\":\"XJoinRet\",\"s\":1,\"us\":[1,2,3],\"term\":%d", xst == ABT_XSTREAM_STATE_TERMINATED);
+    pthread_join(ext, NULL);
+    ABT_thread all[3] = { sp, g_pj_w, g_pj_s };
+    for (int i = 0; i < 3; i++) {
+        EV("\"e\":\"FreeCall\",\"by\":0,\"u\":%d", i + 1);
+        CHK(ABT_thread_free(&all[i]));
+        EV("\"e\":\"FreeRet\",\"by\":0,\"u\":%d,\"null\":%d,\"tok\":%d", i + 1, all[i] == ABT_THREAD_NULL, (i + 1) * 10);
+    }
+    CHK(ABT_xstream_free(&xs));
+    if (s_unused != ABT_SCHED_NULL)
+        CHK(ABT_sched_free(&s_unused));
+    CHK(ABT_pool_free(&g_pj_e));
+    CHK(ABT_pool_free(&g_pj_v));
+}
+
 /* ======================================================================= resume_yield_to on shared pools (C02, C11)
  * Pairs (A, B) in pools that several streams serve: B suspends; A, once it sees
  * B BLOCKED, calls ABT_self_resume_yield_to(B).  A is pushed back to a pool that
@@ -2268,11 +2364,13 @@ static void scenario(const char *name, uint64_t seed)
     }
     setup_streams();
     if (!strcmp(name, "migrate") || !strcmp(name, "migrace") || !strcmp(name, "switch") || !strcmp(name, "xjoin") ||
-        !strcmp(name, "cancelnew") || !strcmp(name, "cancelmix") || !strcmp(name, "ryt") || !strcmp(name, "replace") || !strcmp(name, "ytrace") || !strcmp(name, "stacked")) {
+        !strcmp(name, "cancelnew") || !strcmp(name, "cancelmix") || !strcmp(name, "ryt") || !strcmp(name, "replace") || !strcmp(name, "ytrace") || !strcmp(name, "stacked") || !strcmp(name, "privjoin")) {
         if (!strcmp(name, "migrace"))
             scn_migrace();
         else if (!strcmp(name, "stacked"))
             scn_stacked();
+        else if (!strcmp(name, "privjoin"))
+            scn_privjoin();
         else if (!strcmp(name, "ytrace"))
             scn_ytrace();
         else if (!strcmp(name, "replace"))
